@@ -13,6 +13,7 @@ from mirparse import split_top, strip_generics
 
 SOLVER_TIMEOUT_MS = 60000
 FORKER = [None]
+OVERRIDES = {}
 
 RANGES = {'u8': (0, 2**8 - 1), 'u16': (0, 2**16 - 1), 'u32': (0, 2**32 - 1), 'u64': (0, 2**64 - 1),
           'usize': (0, 2**64 - 1), 'u128': (0, 2**128 - 1), 'i8': (-2**7, 2**7 - 1), 'i16': (-2**15, 2**15 - 1),
@@ -758,6 +759,9 @@ class Interp:
         if callee.startswith(('move ', 'copy ')):
             raise Unsupported('indirect call text')
         ci = parse_callee(callee)
+        if ci.trait is None and ci.key in OVERRIDES:
+            # functions of the crate whose body only forwards to a library without MIR (documented model boundary)
+            return OVERRIDES[ci.key](self, ci, *args)
         fn = self.prog.resolve(ci)
         if fn is not None:
             return self.run(fn, args)
